@@ -177,10 +177,34 @@ Print Assumptions C01_chunk_decoding_is_rfc.
 
 (* ---- 7c. stage (b): where header.ReadTrailer stops (parseTrailer over the reader window), the RFC's
         trailer-section CRLF ends ---- *)
-Theorem C01_trailer_end_is_rfc : forall bsize r rest,
-  read_trailer bsize r = TrDone rest -> trailer_section (S (length r)) r = Some rest.
+Theorem C01_trailer_end_is_rfc : forall dn bsize r rest tf,
+  read_trailer dn bsize r = TrDone rest tf -> trailer_section (S (length r)) r = Some rest.
 Proof. exact read_trailer_rfc. Qed.
 Print Assumptions C01_trailer_end_is_rfc.
+
+(* ---- 7d. trailer fields are merged into the request's header list (parseTrailer appends to h.h) and the serve
+        loop evaluates MayContinue() again after the body: a trailer that Peek("Expect") finds would make it write
+        "100 Continue" and read a SECOND body from the bytes behind the message (Model.Framing.read_req_message).
+        That never happens: whatever parseTrailer accepts (key trimmed, then isBadTrailer, then canonicalised),
+        the merged list answers Peek("Expect") exactly as the head alone — for every configuration and input —
+        so the message the handler gets is the first body read and the loop continues right behind it.
+        (All theorems above are about serve_frames, which contains that second read.) ---- *)
+Theorem C01_trailer_cannot_inject_expect : forall c hd b body rest tf,
+  read_req_body c hd b = RbOk body rest tf ->
+  peekArgBytes (fields hd ++ tf) GenC09.strExpect = peekArgBytes (fields hd) GenC09.strExpect.
+Proof. exact no_expect_injection. Qed.
+Print Assumptions C01_trailer_cannot_inject_expect.
+
+Theorem C01_no_second_body_read : forall c hd b,
+  read_req_message c hd (head_expect hd) b =
+  match read_req_body c hd b with
+  | RbOk body rest _ => RmOk body rest false
+  | RbFail e => RmFail e false
+  | RbEof => RmEof false
+  | RbBug => RmBug
+  end.
+Proof. exact read_req_message_eq. Qed.
+Print Assumptions C01_no_second_body_read.
 
 (* ---- 8. configuration.  FULL statement ("the dispatched sequence is the same for all configurations") is
         false by design of the options: GetOnly rejects other methods, DisablePreParseMultipartForm changes how a
